@@ -119,11 +119,19 @@ func (f *BigFloat) SetElkFloat32(x Float32) *BigFloat {
 
 func (f *BigFloat) Hash() UInt64 {
 	d := xxhash.New()
-	bytes, err := f.AsGoBigFloat().GobEncode()
-	if err != nil {
-		panic(fmt.Sprintf("could not create a hash for big float: %s", err))
+	if f.IsNaN() {
+		d.WriteString("NaN")
+		return UInt64(d.Sum64())
 	}
-	d.Write(bytes)
+	goFloat := f.AsGoBigFloat()
+	if goFloat.Sign() == 0 {
+		// 0.0 and -0.0 are equal
+		d.WriteString("0")
+		return UInt64(d.Sum64())
+	}
+	// equal numbers have to hash alike whatever their precision is,
+	// the shortest hexadecimal mantissa and the exponent do not depend on it
+	d.WriteString(goFloat.Text('p', 0))
 	return UInt64(d.Sum64())
 }
 
